@@ -37,6 +37,17 @@ def parser():
     return _parser
 
 
+POISON = ['f(1, ', 'x = 1)', '[[', '{"a": (', 'a]]', '"unterminated', 'x = (\n1,\n']
+
+
+def poison(i):
+    """an earlier rejected call on the same parser: the trees of later texts must not depend on it"""
+    try:
+        parser().parse(POISON[i % len(POISON)])
+    except Exception:  # noqa
+        pass
+
+
 def impl_tree(text):
     try:
         return 'ok', neutral(parser().parse(text))
@@ -150,7 +161,7 @@ def cases(draw):
     text0 = render(stmts)
     stmts1 = [rewrites.tx_stmt(s, ch_tree) for s in stmts]
     text1 = rewrites.gap_rewrite(render(stmts1), ch_gap)
-    return stmts, ch_tree.applied + ch_gap.applied, text0, text1
+    return stmts, ch_tree.applied + ch_gap.applied, text0, text1, draw(hst.integers(0, 60))
 
 
 def jobs(tier, seed):
@@ -168,9 +179,12 @@ def run_job(job):
     st = Stats()
     if kind == 'random':
         def check(c):
-            stmts, applied, text0, text1 = c
+            stmts, applied, text0, text1, pz = c
             if not applied:
                 return hyp.Result(discard=True)
+            if pz < len(POISON):
+                poison(pz)
+                st.add('cases_after_a_rejected_unbalanced_parse')
             want = ('Code', [unparse.clean(s) for s in stmts])
             case = {'text0': text0, 'text1': text1, 'applied': sorted(set(applied))}
             raw, info = judge(text0, text1, want, case, applied)
